@@ -91,6 +91,18 @@ def gen_case(rng, cid, nops_max, allow_fatal, conc=False):
         nth = 2 + rng.below(2)
         c["ops"] = ops[:rng.below(4)]
         c["threads"] = [[op(cb) for _ in range(1 + rng.below(3))] for _ in range(nth)]
+        if rng.chance(1, 2):
+            # a pending list of some length, then readers racing with a rebase whose compaction is slow (the deleter's
+            # predicate takes 300 us per transaction): a Buffered answer must still be the pending list before or after
+            c["mode"] = rng.below(2)
+            c["slow"] = 1000
+            c["ops"] = [{"k": "a", "t": tx()} for _ in range(6 + rng.below(4))]
+            reb = [o for o in (op(cb) for _ in range(12)) if o["k"] == "r"][:1] or [{"k": "r", "base": base, "applied": [tx()]}]
+            # the rebase reports one of the first transactions added as applied: if it is pending it sits at the head of
+            # the list, and the compaction that removes it moves every later entry
+            reb[0]["applied"] = [list(c["ops"][rng.below(2)]["t"])]
+            # thread 0: an AddTx inside whose validation the harness holds the kernel until the others have queued
+            c["threads"] = [[{"k": "a", "t": tx()}], [{"k": "b", "dst": []}], reb, [{"k": "b", "dst": []}], [{"k": "b", "dst": []}]]
     return c
 
 
